@@ -182,6 +182,13 @@ def order_rules(ctx):
     hook_consumers_rule(ctx, R3, nb, allv)
 
 
+def family_rules(ctx):
+    """shared with C20 (the git group's hooks have file types only: they must reach the FileManagers)"""
+    prog = ctx.prog
+    R3 = ctx.rule("R3", "FileManager.hooks / Certificate.hooks = the get_hooks() result filtered by the consumer's own hook-type family")
+    hook_consumers_rule(ctx, R3, prog.async_body(MEL), set(prog.adt_variants(HT)))
+
+
 def hook_consumers_rule(ctx, R3, nb, allv):
     """Certificate.hooks / FileManager.hooks in MainEventLoop::new: one get_hooks() result, only filtered, by the predicate `types
     intersect the consumer's own family` (shared with C05: a challenge hook that also has a file type must still reach the certificate)"""
